@@ -1,6 +1,6 @@
 SPECIFICATION Spec
 CONSTANTS MaxLen = 3
-BitSets <- BitsAll
+BitSets <- BitsCover3
 Fault = "none"
-INVARIANTS RefinesNamed Reflexive BranchesKnown BranchLog
+INVARIANTS RefinesNamed Reflexive BranchesKnown
 CHECK_DEADLOCK FALSE
